@@ -48,7 +48,13 @@ enum Case {
 const KINDS: usize = 5;
 
 fn decode_interval(t: &mut Tape) -> (f32, f32) {
-    match t.pick(8) {
+    match t.pick(9) {
+        8 => {
+            // intervals whose width overflows single precision
+            let a = t.f32_in(1e38, 3.4e38);
+            let b = t.f32_in(1e38, 3.4e38);
+            (-a, b)
+        }
         0 => (0.0, 1.0),
         1 => (-1.0, 1.0),
         2 => {
@@ -139,7 +145,9 @@ fn decode(tape: &[u32]) -> Case {
         }
         3 => {
             let rank = t.usize(1, 4);
-            let shape = (0..rank).map(|_| t.usize(1, 5)).collect();
+            // a dimension of size 0 behind a non-zero one occurs in one case of eight
+            let zero_at = if t.chance(1, 8) { Some(t.pick(rank)) } else { None };
+            let shape = (0..rank).map(|i| if zero_at == Some(i) && i > 0 { 0 } else { t.usize(1, 5) }).collect();
             let (min, max) = decode_interval(&mut t);
             Case::Random { shape, min, max }
         }
@@ -260,14 +268,51 @@ fn check(case: &Case, ev: &mut CaseEv) -> CheckResult {
                 Err(p) => fail!("Tensor::random({:?},{:e},{:e}) panicked: {}", shape, min, max, p),
             };
             ensure!(t.shape == sh, "Tensor::random shape {:?} != requested {:?}", t.shape, sh);
-            let lens: Vec<usize> = match &t.data {
-                Data::Single(v) => vec![v.len()],
-                Data::Double(v) => vec![v.len(), v[0].len()],
-                Data::Triple(v) => vec![v.len(), v[0].len(), v[0][0].len()],
-                Data::Quadruple(v) => vec![v.len(), v[0].len(), v[0][0].len(), v[0][0][0].len()],
+            // nested lengths level by level (every inner vector is inspected; empty levels stop the descent)
+            let mut lens: Vec<usize> = Vec::new();
+            let mut uniform = true;
+            match &t.data {
+                Data::Single(v) => lens.push(v.len()),
+                Data::Double(v) => {
+                    lens.push(v.len());
+                    if let Some(f) = v.first() {
+                        lens.push(f.len());
+                        uniform &= v.iter().all(|r| r.len() == f.len());
+                    }
+                }
+                Data::Triple(v) => {
+                    lens.push(v.len());
+                    if let Some(f) = v.first() {
+                        lens.push(f.len());
+                        uniform &= v.iter().all(|r| r.len() == f.len());
+                        if let Some(g) = f.first() {
+                            lens.push(g.len());
+                            uniform &= v.iter().all(|r| r.iter().all(|q| q.len() == g.len()));
+                        }
+                    }
+                }
+                Data::Quadruple(v) => {
+                    lens.push(v.len());
+                    if let Some(f) = v.first() {
+                        lens.push(f.len());
+                        uniform &= v.iter().all(|r| r.len() == f.len());
+                        if let Some(g) = f.first() {
+                            lens.push(g.len());
+                            uniform &= v.iter().all(|r| r.iter().all(|q| q.len() == g.len()));
+                            if let Some(h) = g.first() {
+                                lens.push(h.len());
+                                uniform &= v.iter().all(|r| r.iter().all(|q| q.iter().all(|z| z.len() == h.len())));
+                            }
+                        }
+                    }
+                }
                 _ => fail!("unexpected data kind"),
             };
-            ensure!(&lens == shape, "Tensor::random nested lengths {:?} != requested {:?}", lens, shape);
+            let want: Vec<usize> = match shape.iter().position(|d| *d == 0) {
+                Some(z) => shape[..=z].to_vec(),
+                None => shape.clone(),
+            };
+            ensure!(lens == want && uniform, "Tensor::random nested lengths {:?} != requested {:?}", lens, shape);
             let f = flat(&t);
             ensure!(f.len() == shape.iter().product::<usize>(), "element count");
             for v in f {
@@ -310,7 +355,7 @@ impl Prop for C18 {
         t.pick(400_000, 10_000_000)
     }
     fn rule(&self) -> String {
-        "tape-decoded cases of five kinds (generate at a chosen generator state x interval class; purity of the sequence; shuffle with seeds of all magnitudes and lengths 0..1500 with duplicates (one in 4000: a length just above 2^24); Tensor::random shapes of rank 1-4; seeds up to u64::MAX) plus enumeration of generator states (quick: 2^16 lowest + 2^16 highest + a seed-offset progression; thorough: all 2^31-2 states). Non-trivial: state within 2^16 of either end of the state space, or seed >= 2^32, or shuffle length >= 2, or tensor with >= 2 entries. Distinct = (kind, state/seed, interval bits / length / shape).".into()
+        "tape-decoded cases of five kinds (generate at a chosen generator state x interval class; purity of the sequence; shuffle with seeds of all magnitudes and lengths 0..1500 with duplicates (one in 4000: a length just above 2^24); Tensor::random shapes of rank 1-4 (a zero-sized inner dimension in 1/8); seeds up to u64::MAX) plus enumeration of generator states (quick: 2^16 lowest + 2^16 highest + a seed-offset progression; thorough: all 2^31-2 states). Non-trivial: state within 2^16 of either end of the state space, or seed >= 2^32, or shuffle length >= 2, or tensor with >= 2 entries. Distinct = (kind, state/seed, interval bits / length / shape).".into()
     }
     fn assumptions(&self) -> Vec<String> {
         vec!["Tensor::random seeds itself from the wall clock: its inputs are not reproducible, the assertion (shape, interval) is seed-independent".into()]
